@@ -7,6 +7,7 @@ only parsed).  A seed is
   caught   at least one of those checks exits 1 (or 2 where meta.json recorded exit 2)
   MISSED   every recorded check exits 0
   obsolete meta.json records that a later fix: commit removed the mechanism the change relied on (not run)
+  unreported  no check reported it when it was stored (kept for the record, see DESIGN 10)
   stale    the patch no longer applies to the current tree (the tree moved on, e.g. a fix: commit touched the same lines)
 Prints one line per seed and a summary; exit 1 if any seed is missed."""
 import json
@@ -27,6 +28,8 @@ def one(sid):
     if meta.get('obsolete'):
         return sid, 'obsolete', {}
     want = [p for p, c in checks.items() if c.get('exit') in (1, 2)]
+    if not want:
+        return sid, 'unreported', {}     # recorded as not reported by any check when it was stored (see DESIGN 10): nothing to regress
     tmp = tempfile.mkdtemp(prefix='vblf_seed_', dir=os.environ.get('TMPDIR', '/tmp'))
     try:
         dst = os.path.join(tmp, 'repo')
@@ -55,13 +58,13 @@ def main():
         args = args[2:]
     pre = args[0] if args else ''
     ids = sorted(x for x in os.listdir(os.path.join(VERIF, 'seeded')) if x.startswith(pre) and os.path.isdir(os.path.join(VERIF, 'seeded', x)))
-    n = {'caught': 0, 'MISSED': 0, 'stale': 0, 'obsolete': 0}
+    n = {'caught': 0, 'MISSED': 0, 'stale': 0, 'obsolete': 0, 'unreported': 0}
     with ThreadPoolExecutor(max_workers=j) as ex:
         for sid, verdict, res in ex.map(one, ids):
             n[verdict] += 1
             print('%-9s %-7s %s' % (sid, verdict, ' '.join('%s=%d%s' % (p, rc, '[' + ','.join(rules) + ']' if rules else '') for p, (rc, rules) in sorted(res.items()))))
             sys.stdout.flush()
-    print('seeds: %d caught, %d missed, %d stale, %d obsolete (the tree was repaired at the root; see meta.json)' % (n['caught'], n['MISSED'], n['stale'], n['obsolete']))
+    print('seeds: %d caught, %d missed, %d stale, %d obsolete (the tree was repaired at the root; see meta.json), %d stored as unreported' % (n['caught'], n['MISSED'], n['stale'], n['obsolete'], n['unreported']))
     return 1 if n['MISSED'] else 0
 
 
